@@ -19,6 +19,10 @@ def run(ctx):
     RT.candidate_cap(ctx, "R03.e", minimum=1)
     RT.unfinished_prefix_clip(ctx, "R03.f")
     RK.class_predicates(ctx, "R03.g")
+    RK.text_methods_use_chars(ctx, "R03.g")
+    from . import C10 as RC10
+    from . import r_state as RS
+    RC10.hidden_state_inventory(ctx, "R10.e", RS.reset_before_read(ctx, None))
     RC20.buffer_rules(ctx, None, None, "R20.f")
     return info("Necessary constants/shapes for prefix search: the Jaccard gate accepts distance 1/2 (first keystroke), "
                 "the length and DL gates accept distance 0, the gram iterator starts at width 1 and index writer and "
